@@ -12,7 +12,7 @@ func init() {
 		ID:         "C07",
 		Level:      "other",
 		Technique:  "effect-class rule over every merge function wired into a coder literal (overwrite / overwrite-if-set / copy-on-merge / append), accessor agreement with the codec siblings, shape rule over the reflection merge (static)",
-		Explain:    "Decides structural necessary conditions of `Merge equals concatenated decoding`: (1) in every coder literal the merge function uses the same Go accessor as the marshal/unmarshal functions and has the effect class of the field's cardinality, matching what decoding a second occurrence does: repeated coders append to the destination (never overwrite), singular coders assign through the destination accessor, zero-skipping coders assign exactly for the values their append sibling encodes (zero test including the sign of -0.0), byte strings are copied (never shared with the source), pointer scalars are copied into a fresh variable; (2) the reflection merge appends list elements, upserts map entries, merges singular messages into the existing (Mutable) submessage, clones byte strings, and appends the source's unknown fields after the destination's; the fast-path mergePointer appends unknown fields the same way; (3) the oneof merge replaces the destination's wrapper unless it holds the identical member; (4) decoded and merged map entries replace existing entries (values are built with NewValue and Set, never obtained with Mutable). Also decided: the merge slot of every value coder (extensions, map values) has the effect class of the value it encodes (R-VALUE-MERGE-CLASS); the reflection merge tests a single descriptor per copy decision, the map value descriptor for map values (R-MERGE-DESC); singular message coders decode a repeated occurrence into the existing child (R-SINGULAR-MSG-REUSE). The fast-path merge loop is evaluated for every field state (R-MERGE-LOOP): a populated source field is merged, lazy operands are decoded first on both sides.",
+		Explain:    "Decides structural necessary conditions of `Merge equals concatenated decoding`: (1) in every coder literal the merge function uses the same Go accessor as the marshal/unmarshal functions and has the effect class of the field's cardinality, matching what decoding a second occurrence does: repeated coders append to the destination (never overwrite), singular coders assign through the destination accessor, zero-skipping coders assign exactly for the values their append sibling encodes (zero test including the sign of -0.0), byte strings are copied (never shared with the source), pointer scalars are copied into a fresh variable; (2) the reflection merge appends list elements, upserts map entries, merges singular messages into the existing (Mutable) submessage, clones byte strings, and appends the source's unknown fields after the destination's; the fast-path mergePointer appends unknown fields the same way; (3) the oneof merge replaces the destination's wrapper unless it holds the identical member; (4) decoded and merged map entries replace existing entries (values are built with NewValue and Set, never obtained with Mutable). Also decided: the merge slot of every value coder (extensions, map values) has the effect class of the value it encodes (R-VALUE-MERGE-CLASS); the reflection merge tests a single descriptor per copy decision, the map value descriptor for map values (R-MERGE-DESC); singular message coders decode a repeated occurrence into the existing child (R-SINGULAR-MSG-REUSE). The fast-path merge loop is evaluated for every field state (R-MERGE-LOOP): a populated source field is merged, lazy operands are decoded first on both sides. Also: the reflective decoder's decode targets come from Message.Mutable (merge), List.NewElement or Map.NewValue, never from NewField+Set (replace).",
 		NotCovered: "the three-way equivalence on values (Merge vs. decode of concatenation vs. UnmarshalOptions{Merge}); extension merging through lazily decoded values.",
 		Quick:      all("./internal/impl", "./proto", "./encoding/protojson", "./encoding/prototext"),
 		Thorough:   allAndLegacy("./internal/impl", "./proto", "./encoding/protojson", "./encoding/prototext"),
